@@ -6,7 +6,8 @@ spec -> code : TLC explores Mutate.tla (a repository fixture reduced to abstract
                concretises the document (the unmutated one must reproduce the fixture text exactly) and
                runs the real x12n_document (subsets of the sinks 997/999, HTML, XML x charset B/E),
                X12Reader iteration + pop_errors + cleanup, and X12ContextReader.iter_segments (no loop id
-               and two loop ids), each under try/except and a wall-clock limit.
+               and two loop ids), each in-process under try/except and a time limit (10 CPU seconds, wall-clock
+               backstop; only a repeated time-out counts as 'no termination').
 code -> spec : every run - plus a seeded stream of arbitrary strings, edited ISA headers, garbage bodies and
                one minimal interchange per map index entry - is recorded [first 106 characters, ISA/GS/BHT
                projection, API, sinks, charset, outcome] and validated by TLC against T_Validate.tla: the
@@ -39,7 +40,8 @@ import pyx12.x12file
 import pyx12.x12n_document
 
 PYX = os.path.join(os.path.realpath(vlib.REPO), 'pyx12') + os.sep
-RUN_LIMIT = 20.0          # wall-clock seconds for one call of the implementation (normal: < 0.3 s)
+RUN_CPU_LIMIT = 10.0      # CPU seconds for one call of the implementation (normal: < 0.3 s): an endless loop burns CPU
+RUN_LIMIT = 300.0         # wall-clock backstop for one call (a call that blocks without using CPU)
 MAX_HANGS = 2            # per batch of inputs: stop running after that many time-outs
 SINKS = ['', 'a', 'h', 'x', 'ah', 'ax', 'hx', 'ahx']
 
@@ -148,15 +150,19 @@ def _site(tb):
     return site
 
 
-def _call(fn):
+def _call_once(fn):
     """one guarded execution -> outcome record"""
     o = {'kind': '', 'val': False, 'exc': '', 'site': '', 'mnf': False, 'msg': ''}
     old = signal.signal(signal.SIGALRM, _on_alarm)
-    signal.setitimer(signal.ITIMER_REAL, RUN_LIMIT, 0.2)     # re-fires: a bare except inside pyx12 cannot swallow it for good
+    oldp = signal.signal(signal.SIGPROF, _on_alarm)
+    # the timers re-fire: a bare except inside pyx12 cannot swallow the interruption for good
+    signal.setitimer(signal.ITIMER_PROF, RUN_CPU_LIMIT, 0.2)
+    signal.setitimer(signal.ITIMER_REAL, RUN_LIMIT, 0.2)
     try:
         try:
             r = fn()
         finally:
+            signal.setitimer(signal.ITIMER_PROF, 0, 0)
             signal.setitimer(signal.ITIMER_REAL, 0, 0)
         if r is None:
             o['kind'] = 'completed'
@@ -169,6 +175,7 @@ def _call(fn):
     except _Timeout:
         o['kind'] = 'timeout'
     except Exception as e:
+        signal.setitimer(signal.ITIMER_PROF, 0, 0)
         signal.setitimer(signal.ITIMER_REAL, 0, 0)
         o['kind'] = 'exception'
         o['exc'] = type(e).__name__
@@ -176,8 +183,17 @@ def _call(fn):
         o['msg'] = str(e)[:160]
         o['mnf'] = isinstance(e, pyx12.errors.EngineError) and str(e).startswith('Map not found')
     finally:
+        signal.setitimer(signal.ITIMER_PROF, 0, 0)
         signal.setitimer(signal.ITIMER_REAL, 0, 0)
         signal.signal(signal.SIGALRM, old)
+        signal.signal(signal.SIGPROF, oldp)
+    return o
+
+
+def _call(fn):
+    o = _call_once(fn)
+    if o['kind'] == 'timeout':
+        o = _call_once(fn)          # only a repeated time-out counts (a stalled, overloaded machine is not an endless loop)
     return o
 
 
@@ -572,6 +588,7 @@ def run(tier, replay=None):
                        'quick tier: each sink alone (short skeletons: all three per input; long ones: one per input, alternating), sometimes one random combination, one context-reader call; thorough tier: all 16 sink/charset combinations and three context-reader calls',
                        'a later ISA segment that has not 16 elements may draw the documented X12Error (counted as the documented refusal of a malformed ISA)',
                        'inputs whose ISA is malformed beyond length/prefix/version (class bad_isa) may be refused late or - for the readers - not at all',
+                       'no termination = one call uses more than %d CPU seconds (or %d s wall clock) twice in a row; after %d such calls a worker skips the rest of its batch of inputs' % (RUN_CPU_LIMIT, RUN_LIMIT, MAX_HANGS),
                        'not reached: resource exhaustion, non-text streams, I/O errors of the sinks, path sources']
     return chk.finish()
 
